@@ -139,12 +139,16 @@ func init() {
 				Args: func(tier string, l *Loaded) [][]int64 { return [][]int64{{0, 2, 0, 0, 1}} }},
 		}}
 	properties["C05"] = &PropertySpec{ID: "C05",
-		Rule:        "6 capture-bearing bodies x 15 with-lists mixing strings, captures, built-ins, undefined names and three transforms (harness/C05/c05.go) x ASCII texts of length 0..T (quick 3, thorough 5)",
+		Rule:        "6 capture-bearing bodies x 15 with-lists mixing strings, captures, built-ins, undefined names and three transforms (harness/C05/c05.go) x ASCII texts of length 0..T (quick 3, thorough 5); 12 bodies whose capture is reached through a named pattern, an inline subroutine or a counted loop x 5 with-lists at T = 3 (thorough 4)",
 		Assumptions: []string{"ASCII text", "the three fixed transforms (evaluation of arbitrary expressions is C11's subject)"},
 		Groups: []JobGroup{
 			{Name: "c05", Overlay: libOverlay("C05/c05.go"), Pkg: "libvore", Entry: "VerifC05", PanicOK: true,
 				Args: func(tier string, l *Loaded) [][]int64 {
 					return seqArgs(countOf(l, "libvore", "VerifC05Count"), tOf(tier, 3, 5), 0)
+				}},
+			{Name: "c05-defs", Overlay: libOverlay("C05/c05.go"), Pkg: "libvore", Entry: "VerifC05Defs", PanicOK: true,
+				Args: func(tier string, l *Loaded) [][]int64 {
+					return seqArgs(countOf(l, "libvore", "VerifC05DefsCount"), tOf(tier, 3, 4))
 				}},
 			{Name: "c05-twin", Overlay: libOverlay("C05/c05.go"), Pkg: "libvore", Entry: "VerifC05", Twin: true, PanicOK: true,
 				Args: func(tier string, l *Loaded) [][]int64 { return [][]int64{{0, 2, 1}} }},
@@ -168,7 +172,7 @@ func init() {
 				}},
 		}}
 	properties["C10"] = &PropertySpec{ID: "C10",
-		Rule:        "family FN: 23 nullable bodies x 21 loop/alternation/subroutine/named-loop wrappers, plus not-in, negated classes, global patterns, whole-* and nullable regex loops (harness/C10/c10.go) x ASCII texts of length 0..T (quick 3, thorough 4); unwinding budget 3e6 SSA steps per path (measured maximum is in evidence)",
+		Rule:        "family FN: 23 nullable bodies x 21 loop/alternation/subroutine/named-loop wrappers, plus not-in, negated classes, global patterns, whole-* and nullable regex loops, and guarded recursion (15 atom kinds incl. negated classes and lists x 5 forms of a subroutine that consumes one atom and may call itself) (harness/C10/c10.go) x ASCII texts of length 0..T (quick 3, thorough 4); unwinding budget 3e6 SSA steps per path (measured maximum is in evidence)",
 		Assumptions: []string{"ASCII text", "a path that exhausts the unwinding budget is replayed natively under a 20 s timeout and only reported if the native run does not return"},
 		Groups: []JobGroup{
 			{Name: "c10", Overlay: libOverlay("C10/c10.go"), Pkg: "libvore", Entry: "VerifC10", BudgetIsViolation: true, Budget: 3_000_000, PanicOK: true,
@@ -250,7 +254,7 @@ func init() {
 				Args: func(tier string, l *Loaded) [][]int64 { return [][]int64{{1, 1, 11, 1, 1}} }},
 		}}
 	properties["C12"] = &PropertySpec{ID: "C12",
-		Rule:        "real checker vs the documented typing table: all 13 binary operators x 6x6 operand kinds, unary operators x 6 kinds, depth-2 trees with symbolic operators (accept iff table, inferred type = table type, accepted code evaluates to that type); 18 statement skeletons x 23-expression menu per hole (symbolic choice) in transform and predicate context through the real lexer/parser/checker/Compile, accepted programs run on the VM",
+		Rule:        "real checker vs the documented typing table: all 13 binary operators x 6x6 operand kinds, unary operators x 6 kinds, depth-2 trees with symbolic operators (accept iff table, inferred type = table type, accepted code evaluates to that type); 18 statement skeletons x 23-expression menu per hole (symbolic choice) in transform and predicate context through the real lexer/parser/checker/Compile, accepted programs run on the VM; two definitions in one source (4 assigning x 4 using skeletons, 8-expression menu per hole, second definition transform or predicate, both orders): accepted exactly when each definition is accepted alone",
 		Assumptions: []string{"each variable keeps one type (programs that re-type a variable are assumed away, as the property states)", "every loop of the statement skeletons terminates"},
 		Groups: []JobGroup{
 			{Name: "c12-binop", Overlay: engOverlay, Pkg: "engine", Entry: "VerifC11Binop",
@@ -261,6 +265,8 @@ func init() {
 				Args: func(tier string, l *Loaded) [][]int64 { return nested(12, tier) }},
 			{Name: "c12-stmt", Overlay: srcOverlay, Pkg: "libvore", Entry: "VerifC12Stmt",
 				Args: func(tier string, l *Loaded) [][]int64 { return seqArgs(countOf(l, "libvore", "VerifC12StmtCount"), 0) }},
+			{Name: "c12-pair", Overlay: srcOverlay, Pkg: "libvore", Entry: "VerifC12Pair",
+				Args: func(tier string, l *Loaded) [][]int64 { return seqArgs(countOf(l, "libvore", "VerifC12PairCount")) }},
 			{Name: "c12-twin", Overlay: srcOverlay, Pkg: "libvore", Entry: "VerifC12Stmt", Twin: true,
 				Args: func(tier string, l *Loaded) [][]int64 { return [][]int64{{0, 1}} }},
 		}}
@@ -273,7 +279,7 @@ func init() {
 		return out
 	}
 	properties["C08"] = &PropertySpec{ID: "C08",
-		Rule:        "lexer: all byte strings of length <= 2 (thorough 3) over all 256 values, plus 15 corpus prefixes that end inside strings/escapes/comments/regex literals/operators followed by 2 (thorough 3) arbitrary bytes; parser: token lists of 4 (thorough 5) tokens with symbolic TokenType over all token types + EOF, and 36 concrete token prefixes (every construct of the grammar cut at every interesting point) followed by 2 (thorough 3) symbolic tokens; regex sub-parser: bodies of <= 3 (thorough 4) arbitrary bytes and 24 prefixes + 2 (thorough 3) bytes; accepted ASTs are walked for holes and fed to the real GenerateBytecode (program or error, no panic); unwinding budget 2e6 SSA steps (hang = violation after native replay under timeout)",
+		Rule:        "lexer: all byte strings of length <= 2 (thorough 3) over all 256 values, plus 15 corpus prefixes that end inside strings/escapes/comments/regex literals/operators followed by 2 (thorough 3) arbitrary bytes; parser: token lists of 4 (thorough 5) tokens with symbolic TokenType over all token types + EOF, and 36 concrete token prefixes (every construct of the grammar cut at every interesting point) followed by 2 (thorough 3) symbolic tokens; regex sub-parser: bodies of <= 3 (thorough 4) arbitrary bytes and 24 prefixes + 2 (thorough 3) bytes; accepted ASTs are walked for holes and fed to the real GenerateBytecode (program or error, no panic); process code through Compile: 7 statement skeletons (assignment chains between variables inside loops, nested loops and conditionals) x symbolic choice of every variable among two user variables and built-ins of different types / literals, transform and predicate context; unwinding budget 2e6 SSA steps (hang = violation after native replay under timeout)",
 		Assumptions: []string{"token lexemes are the representative \"1\" (numbers, identifiers, strings)", "sources longer than the bounds unless they share a corpus prefix"},
 		Groups: []JobGroup{
 			{Name: "c08-lex", Overlay: astOv("C08/c08_lex.go"), Pkg: "ast", Entry: "VerifC08Lex", BudgetIsViolation: true, Budget: 2_000_000,
@@ -311,6 +317,8 @@ func init() {
 					}
 					return out
 				}},
+			{Name: "c08-proc", Overlay: map[string][]string{"libvore": {"common/lib.go", "C08/c08_proc.go"}}, Pkg: "libvore", Entry: "VerifC08Proc", BudgetIsViolation: true, Budget: 2_000_000, MaxFailures: 3,
+				Args: func(tier string, l *Loaded) [][]int64 { return seqArgs(countOf(l, "libvore", "VerifC08ProcCount")) }},
 			{Name: "c08-regex", Overlay: astOv("C08/c08_parse.go"), Pkg: "ast", Entry: "VerifC08Regex", BudgetIsViolation: true, Budget: 2_000_000,
 				Args: func(tier string, l *Loaded) [][]int64 {
 					out := [][]int64{{0, 1}, {0, 2}, {0, 3}}
